@@ -761,6 +761,27 @@ func (w *l1World) doEvent(ev l1Event) (obs map[string]interface{}) {
 			}
 		}
 	}()
+	dn := []string{}
+drain2:
+	for {
+		select {
+		case a := <-w.done:
+			dn = append(dn, a)
+		default:
+			break drain2
+		}
+	}
+	obs["done"] = dn
+	// the node forgets a connection when it receives its address (pConns.Delete): the next
+	// datagram from that peer creates a fresh PFCPConn
+	for _, a := range dn {
+		for i, c := range w.conns {
+			if c.RemoteAddr().String() == a {
+				delete(w.conns, i)
+				delete(w.srcs, i)
+			}
+		}
+	}
 	// what the agent emitted
 	replies := map[string]interface{}{}
 	for i, nc := range w.ncs {
@@ -792,27 +813,6 @@ func (w *l1World) doEvent(ev l1Event) (obs map[string]interface{}) {
 		}
 	}
 	obs["markers"] = markers
-	dn := []string{}
-drain2:
-	for {
-		select {
-		case a := <-w.done:
-			dn = append(dn, a)
-		default:
-			break drain2
-		}
-	}
-	obs["done"] = dn
-	// the node forgets a connection when it receives its address (pConns.Delete): the next
-	// datagram from that peer creates a fresh PFCPConn
-	for _, a := range dn {
-		for i, c := range w.conns {
-			if c.RemoteAddr().String() == a {
-				delete(w.conns, i)
-				delete(w.srcs, i)
-			}
-		}
-	}
 	closed := []int{}
 	for i, nc := range w.ncs {
 		nc.mu.Lock()
